@@ -12,7 +12,7 @@ CONSTANTS DurSet, TargetSet, MaxStages, MaxT
 VARIABLES stages,     \* sequence of [d |-> duration, e |-> end target]
           cur,        \* index of the current stage (Len(stages)+1 once all have elapsed)
           t,          \* offset of the last query
-          last,       \* result of the last query (-1 before the first)
+          last,       \* result of the last query (NONE before the first; targets, and so results, may be negative)
           lastStage   \* stage the last query fell in (0 before the first)
 vars == <<stages, cur, t, last, lastStage>>
 
@@ -37,8 +37,9 @@ InStageOK(st, k, off, r) ==
        /\ (S * D + (E - S) * o) - r * D <= D
 
 \* monotone within a stage, in the direction of the stage
+NONE == -2000000000        \* "no previous answer"
 MonotoneOK(st, k, prevStage, prev, r) ==
-    (prevStage = k /\ prev # -1) =>
+    (prevStage = k /\ prev # NONE) =>
         LET S == StartTarget(st, k)  E == st[k].e
         IN /\ (E >= S) => r >= prev
            /\ (E <= S) => r <= prev
@@ -57,8 +58,8 @@ Query(off, r) ==
 
 StageSet == [d : DurSet, e : TargetSet]
 Init == /\ stages \in UNION {[1..n -> StageSet] : n \in 1..MaxStages}
-        /\ cur = 1 /\ t = 0 /\ last = -1 /\ lastStage = 0
-Next == \E off \in t..MaxT, r \in 0..(CHOOSE m \in TargetSet : \A x \in TargetSet : m >= x) : Query(off, r)
+        /\ cur = 1 /\ t = 0 /\ last = NONE /\ lastStage = 0
+Next == \E off \in t..MaxT, r \in (CHOOSE m \in TargetSet \cup {0} : \A x \in TargetSet \cup {0} : m <= x)..(CHOOSE m \in TargetSet \cup {0} : \A x \in TargetSet \cup {0} : m >= x) : Query(off, r)
 Spec == Init /\ [][Next]_vars
 
 (* the calculator's own arithmetic: truncation toward the start target *)
@@ -78,10 +79,14 @@ ImplAlwaysAllowed == \A off \in t..MaxT :
                         IN QueryOK(stages, cur, lastStage, last, off,
                                    IF k > Len(stages) THEN 0 ELSE ImplRate(stages, k, off))
 
+\* target sets of the model-checking configurations (a .cfg file cannot write a negative number)
+MC_Targets_A == {-2, 0, 1, 3}
+MC_Targets_B == {-3, 0, 1, 4, 7}
+
 (* Properties *)
 CursorMonotone == [][cur' >= cur]_vars
-ZeroAfterEnd == (t >= Total(stages) /\ last # -1) => last = 0
-WithinTargets == (last # -1 /\ lastStage <= Len(stages) /\ lastStage > 0) =>
+ZeroAfterEnd == (t >= Total(stages) /\ last # NONE) => last = 0
+WithinTargets == (last # NONE /\ lastStage <= Len(stages) /\ lastStage > 0) =>
                     /\ last >= Min(StartTarget(stages, lastStage), stages[lastStage].e)
                     /\ last <= Max(StartTarget(stages, lastStage), stages[lastStage].e)
 (* ramp = one stage from s to e over d, but 0 only STRICTLY after d (the ramp reaches e at d) *)
@@ -90,5 +95,5 @@ RampOK(S, E, D, off, prev, r) ==
     ELSE /\ Min(S, E) <= r /\ r <= Max(S, E)
          /\ r * D - (S * D + (E - S) * off) <= D
          /\ (S * D + (E - S) * off) - r * D <= D
-         /\ (prev # -1) => ((E >= S) => r >= prev) /\ ((E <= S) => r <= prev)
+         /\ (prev # NONE) => ((E >= S) => r >= prev) /\ ((E <= S) => r <= prev)
 =============================================================================
